@@ -36,6 +36,8 @@ def run():
     chk.assumptions += [
         "files are enumerated over a 30-line alphabet of character-token lines (spec/LangFile/LangFile.tla), nested bounds: "
         + ("<=3 lines over all 30, <=4 over 16, <=5 over 8, <=6 over 5" if thorough else "<=2 lines over all 30, <=3 over 12, <=4 over 7"),
+        "plus a sampled family of long sections (TLC simulation, seed = VERIF_SEED): one section of 13..41 lines, 10 key spellings of 6 keys, "
+        "message = entry number, so that equal keys occur at many distances in sections long enough for a sort routine to change algorithm",
         "white space is one class; its concrete representative in this run is a %s (VERIF_SEED parity)" % ws,
         "'a duplicate key whose winner could be affected' = a key (as the compiler sees it) defined at least twice with different messages "
         "within one run of entry lines not interrupted by a header or comment; 'reported' = some duplicate-key warning lists at least two of its lines",
@@ -45,6 +47,9 @@ def run():
         pool = ThreadPoolExecutor(max_workers=4)
         # negative control runs beside the generation
         neg = pool.submit(vf.tlc, SPEC, "LangFile_MC", "LangFile_MC_asis.cfg", sd, workers=2, timeout=900)
+        # long-section family (one section of 13..40 entries, many duplicates of few keys): seeded TLC simulation, beside the rest
+        lng = pool.submit(vf.tlc, SPEC, "LangFile_Long", "LangFile_Long.cfg", sd, workers=1,
+                          simulate="num=%d" % (40 if thorough else 4), depth=42, seed=vf.SEED, timeout=2400)
         # 1. contract on the models (fixed), exhaustive at the tier's bounds; the same run emits every file
         r = vf.tlc_ok(vf.tlc(SPEC, "LangFile_MC", "LangFile_MC.cfg" if thorough else "LangFile_MCq.cfg", sd,
                              workers=min(vf.NCPU, 8), timeout=2400), "LangFile MC")
@@ -54,6 +59,14 @@ def run():
         if len(alpha) != 1 or len(files) != r.distinct:
             raise vf.NoVerdict("generation incomplete: %d records for %d states" % (len(files), r.distinct))
         files = alpha + sorted((x for x in files if "lines" in x), key=lambda x: (len(x["lines"]), x["lines"]))
+        nshort = len(files) - 1
+        rl = vf.tlc_ok(lng.result(), "LangFile_Long simulation")
+        chk.add_tlc(rl, "long-section family: contract on the fixed models + generation (simulation, seeded)", count_states=False)
+        longs = {json.dumps(x, sort_keys=True): x for x in rl.records if isinstance(x, dict) and "toks" in x}
+        longs = [longs[k] for k in sorted(longs)]
+        if len(longs) < 50 or max(len(x["toks"]) for x in longs) < 40:
+            raise vf.NoVerdict("long-section family too small: %d files" % len(longs))
+        files += longs
         fin = vf.write_ndjson(os.path.join(sd, "files.ndjson"), files)
         nfiles = len(files) - 1
         # 2. the real tools
@@ -133,21 +146,22 @@ def run():
         cmis = [c for c in cmis if c <= SELFTEST]
         if cmis:
             raise vf.NoVerdict("the spec's Compile model disagrees with the real compiler on %d files, e.g. %s" %
-                               (len(cmis), [files[c]["lines"] for c in sorted(cmis)[:5]]))
+                               (len(cmis), [files[c].get("lines") or files[c]["toks"] for c in sorted(cmis)[:5]]))
         real = [b for b in bad if b["id"] <= SELFTEST]
         byid = {}
         for b in real:
             byid.setdefault(b["key"], []).append(b["id"])
         for key, ids in sorted(byid.items()):
-            ids.sort(key=lambda i_: (len(files[i_]["lines"]), files[i_]["lines"]))
+            fl = lambda i_: files[i_].get("lines") or files[i_]["toks"]
+            ids.sort(key=lambda i_: (len(fl(i_)), json.dumps(fl(i_))))
             i0 = ids[0]
             o = json.loads(lines[i0 - 1])
             abc = files[0]["alphabet"]
             untok = lambda ls: "\n".join("".join({"S": " " if ws == "space" else "\t", "R": "\r"}.get(t, t) for t in l) for l in ls)
-            ti, ta = untok([abc[x - 1] for x in o["lines"]]), untok(o["after"])
+            ti, ta = untok(o["toks"] if o["long"] else [abc[x - 1] for x in o["lines"]]), untok(o["after"])
             chk.violation(key, "%d enumerated files fail this clause; smallest: text %r -> after langlint %r; table before %s after %s; duplicate warnings %s"
                           % (len(ids), ti, ta, json.dumps(o["tin"]), json.dumps(o["tout"]), o["dups"]),
-                          {"lines": o["lines"], "text": ti, "record": o, "count": len(ids), "more": [files[i_]["lines"] for i_ in ids[1:6]]})
+                          {"lines": o["lines"], "text": ti, "record": o, "count": len(ids), "more": [fl(i_) for i_ in ids[1:6]]})
         rn = neg.result()
         pool.shutdown()
         if rn.violated != "Holds":
@@ -159,6 +173,9 @@ def run():
         chk.cov["evaluations"] = nrec - len(st)
         chk.cov["distinct_nontrivial"] = nlint
         chk.cov["files"] = nfiles
+        chk.cov["files_exhaustive_family"] = nshort
+        chk.cov["files_long_section_family"] = len(longs)
+        chk.cov["long_section_lengths"] = sorted({len(x["toks"]) for x in longs})
         chk.cov["files_langlint_accepted"] = nlint
         chk.cov["files_compiler_accepted"] = ncomp
         chk.cov["lint_model_agreement"] = {"asis": agreeA, "fixed": agreeF, "of": nrec - len(st)}
@@ -168,5 +185,5 @@ def run():
                 chk.sample({"kind": "enumerated file", "text": texts[i_][0], "after_langlint": texts[i_][1]})
         chk.cov["rule"] = ("files = every state of LangFile_MC (exhaustive at the nested bounds); each is formatted by the real lintFile twice and compiled by the "
                            "real compileFile before/after; every record judged by the TLA+ contract (LangFile_Trace); non-trivial = files langlint accepted")
-        chk.cov["exhaustive"] = True
+        chk.cov["exhaustive"] = True    # the <=N-line family; the long-section family is sampled (seeded TLC simulation)
     return chk.finish()
